@@ -296,6 +296,26 @@ fn immutable_from(defs: &BTreeMap<String, extract::Def>, root: &str) -> bool {
     true
 }
 
+/// independent of the Lean `staticWriteOnce`
+fn static_write_once(defs: &BTreeMap<String, extract::Def>, s: &extract::StaticDef) -> bool {
+    use extract::Ty;
+    if s.kind != "static" || s.mutable {
+        return false;
+    }
+    let inner: Vec<&Ty> = match &s.ty {
+        Ty::Path(n, args) if (n == "OnceLock" && args.len() == 1) || n == "LazyLock" => args.iter().collect(),
+        t => vec![t],
+    };
+    let mut names = vec![];
+    inner.iter().for_each(|t| ty_names(t, &mut names));
+    if names.iter().any(|n| INTERIOR.contains(&n.as_str()) || n.starts_with("Atomic")) {
+        return false;
+    }
+    let mut all = vec![];
+    ty_names(&s.ty, &mut all);
+    all.iter().all(|n| !defs.contains_key(n) || immutable_from(defs, n))
+}
+
 // ------------------------------------------------------------------------------------------------
 // (d) runtime
 // ------------------------------------------------------------------------------------------------
@@ -306,7 +326,48 @@ fn test_dir() -> String {
     format!("{}/trustfall_core/test_data/tests", extract::default_repo())
 }
 
+/// Hand-written numbers queries (stems `x_…`) whose evaluation keeps per-row state in the engine:
+/// tag-supplied operands of regex / substring / prefix / one_of filters (the tag value changes from
+/// row to row, so concurrent executions hold DIFFERENT operands at the same moment), filters inside
+/// folds with imported tags, recursion with coercion.
+const EXTRA_QUERIES: &[(&str, &str)] = &[
+    ("x_tag_regex", r#"{ Number(min: 1, max: 30) { name @tag(name: "t") successor { predecessor { name @filter(op: "regex", value: ["%t"]) value @output } } } }"#),
+    ("x_tag_not_regex", r#"{ Number(min: 1, max: 30) { name @tag(name: "t") successor { predecessor { name @filter(op: "not_regex", value: ["%t"]) value @output } } } }"#),
+    ("x_tag_regex_successor", r#"{ Number(min: 0, max: 20) { name @tag(name: "t") successor { name @filter(op: "regex", value: ["%t"]) value @output } } }"#),
+    ("x_tag_not_regex_successor", r#"{ Number(min: 0, max: 20) { name @tag(name: "t") successor { name @filter(op: "not_regex", value: ["%t"]) value @output } } }"#),
+    ("x_tag_regex_multiple", r#"{ Number(min: 2, max: 9) { name @tag(name: "t") value @output multiple(max: 3) { mname: name @filter(op: "regex", value: ["%t"]) @output } } }"#),
+    ("x_tag_has_substring", r#"{ Number(min: 1, max: 20) { name @tag(name: "t") successor { predecessor { name @filter(op: "has_substring", value: ["%t"]) value @output } } } }"#),
+    ("x_tag_has_prefix", r#"{ Number(min: 1, max: 9) { name @tag(name: "t") value @output multiple(max: 2) { mname: name @filter(op: "has_prefix", value: ["%t"]) @output } } }"#),
+    ("x_tag_has_suffix_not", r#"{ Number(min: 1, max: 12) { name @tag(name: "t") successor { name @filter(op: "not_has_suffix", value: ["%t"]) value @output } } }"#),
+    ("x_tag_one_of", r#"{ Number(min: 1, max: 12) { vowelsInName @tag(name: "vs") successor { name @filter(op: "not_one_of", value: ["%vs"]) value @output } } }"#),
+    ("x_tag_contains", r#"{ Number(min: 1, max: 12) { name @tag(name: "t") successor { vowelsInName @filter(op: "not_contains", value: ["%t"]) value @output } } }"#),
+    ("x_tag_int_compare", r#"{ Number(min: 1, max: 8) { value @tag(name: "v") @output multiple(max: 3) { mult: value @filter(op: ">", value: ["%v"]) @output } } }"#),
+    ("x_fold_imported_tag", r#"{ Number(min: 1, max: 8) { value @tag(name: "v") @output multiple(max: 4) @fold { mult: value @filter(op: ">", value: ["%v"]) @output } } }"#),
+    ("x_fold_imported_tag_regex", r#"{ Number(min: 1, max: 12) { name @tag(name: "t") @output successor @fold { predecessor { pn: name @filter(op: "regex", value: ["%t"]) @output } } } }"#),
+    ("x_fold_count_and_tag", r#"{ Number(min: 1, max: 8) { value @tag(name: "v") @output multiple(max: 4) @fold @transform(op: "count") @output(name: "n") { value @filter(op: ">", value: ["%v"]) } } }"#),
+    ("x_recurse_coercion", r#"{ Number(min: 2, max: 6) { value @output successor @recurse(depth: 3) { ... on Composite { comp: value @output primeFactor @fold { f: value @output } } } } }"#),
+    ("x_recurse_tag_substring", r#"{ Number(min: 1, max: 10) { name @tag(name: "t") @output successor @recurse(depth: 2) { rname: name @filter(op: "has_substring", value: ["%t"]) @output } } }"#),
+    ("x_optional_tag_regex", r#"{ Number(min: 0, max: 12) { value @output predecessor @optional { name @tag(name: "p") } successor { sname: name @filter(op: "not_regex", value: ["%p"]) @output } } }"#),
+];
+
+/// pairs of DIFFERENT queries executed at the same moment by different threads
+const PAIRS: &[(&str, &str)] = &[
+    ("x_tag_regex", "x_tag_regex_successor"),
+    ("x_tag_regex", "x_tag_not_regex"),
+    ("x_tag_not_regex_successor", "x_tag_regex_multiple"),
+    ("x_tag_has_substring", "x_tag_has_prefix"),
+    ("x_fold_imported_tag_regex", "x_optional_tag_regex"),
+    ("x_tag_one_of", "x_tag_contains"),
+    ("x_fold_imported_tag", "x_recurse_coercion"),
+    ("x_tag_regex", "fold_count_filter_lt_over_i64_max"),
+];
+
 fn load(dir: &str, stem: &str) -> Option<TestGraphQLQuery> {
+    if dir == "valid_queries" {
+        if let Some((_, q)) = EXTRA_QUERIES.iter().find(|(n, _)| *n == stem) {
+            return Some(TestGraphQLQuery { schema_name: "numbers".into(), query: q.to_string(), arguments: Default::default() });
+        }
+    }
     if !stem.bytes().all(|c| c.is_ascii_alphanumeric() || c == b'_' || c == b'-') {
         return None;
     }
@@ -324,6 +385,7 @@ fn stems(dir: &str) -> Vec<String> {
         .into_iter()
         .filter_map(|n| n.strip_suffix(".graphql.ron").map(|s| s.to_string()))
         .filter(|s| load(dir, s).is_some())
+        .chain(EXTRA_QUERIES.iter().filter(|_| dir == "valid_queries").map(|(n, _)| n.to_string()))
         .collect()
 }
 
@@ -379,6 +441,7 @@ pub struct C24 {
     adapter: Arc<NumbersAdapter>,
     probes: BTreeMap<&'static str, (bool, bool)>,
     defs: BTreeMap<String, extract::Def>,
+    statics: Vec<extract::StaticDef>,
     results: RefCell<BTreeMap<String, Shared>>,
 }
 
@@ -389,6 +452,7 @@ impl C24 {
             adapter: Arc::new(NumbersAdapter::new()),
             probes: probe_table().into_iter().collect(),
             defs: defs.into_iter().map(|d| (d.name.clone(), d)).collect(),
+            statics: extract::extract_statics(&extract::default_repo()).unwrap_or_default(),
             results: RefCell::new(BTreeMap::new()),
         }
     }
@@ -458,43 +522,57 @@ impl C24 {
     /// more sequentially.  Reference rows come from an independently compiled copy, executed on
     /// this thread only.  (A lazily filled cache inside the compiled query that is populated
     /// incorrectly under a race shows up in some thread's rows or in the re-execution.)
-    fn run_fresh(&self, line: &str, test: &TestGraphQLQuery, rounds: usize) {
+    fn run_fresh(&self, line: &str, tests: &[TestGraphQLQuery], rounds: usize) {
         let schema_holder = self.adapter.clone(); // owns the shared Schema
-        let args = args_of(test);
+        let k = tests.len();
         let mut r = Shared { threads: FRESH_THREADS, ..Default::default() };
-        let reference_q = match compile(schema_holder.schema(), &test.query) {
-            Ok(q) => q,
-            Err(e) => {
-                r.compile_mismatch = 1;
-                r.detail = format!("reference compilation failed: {e}");
-                self.results.borrow_mut().insert(line.to_string(), r);
-                return;
+        let mut refs: Vec<(Arc<IndexedQuery>, Args, String)> = vec![];
+        for t in tests {
+            match compile(schema_holder.schema(), &t.query) {
+                Ok(q) => {
+                    let a = args_of(t);
+                    let rows = execute(&Arc::new(NumbersAdapter::new()), &q, &a);
+                    r.sequential_rows += if rows.is_empty() { 0 } else { rows.lines().count() };
+                    refs.push((q, a, rows));
+                }
+                Err(e) => {
+                    r.compile_mismatch = 1;
+                    r.detail = format!("reference compilation failed: {e}");
+                    self.results.borrow_mut().insert(line.to_string(), r);
+                    return;
+                }
             }
-        };
-        let reference = execute(&Arc::new(NumbersAdapter::new()), &reference_q, &args);
-        r.sequential_rows = if reference.is_empty() { 0 } else { reference.lines().count() };
+        }
         let adapters: Vec<Arc<NumbersAdapter>> = (0..FRESH_THREADS).map(|_| Arc::new(NumbersAdapter::new())).collect();
         let main_adapter = Arc::new(NumbersAdapter::new());
         for round in 0..rounds {
-            let shared_q = match compile(schema_holder.schema(), &test.query) {
-                Ok(q) => q,
-                Err(e) => {
-                    r.compile_mismatch += 1;
-                    r.detail = format!("round {round}: compilation failed: {e}");
-                    break;
+            let mut shared: Vec<Arc<IndexedQuery>> = vec![];
+            for (i, t) in tests.iter().enumerate() {
+                match compile(schema_holder.schema(), &t.query) {
+                    Ok(q) => {
+                        if q != refs[i].0 {
+                            r.compile_mismatch += 1;
+                            r.detail = format!("round {round}: a fresh compilation differs from the reference compilation");
+                        }
+                        shared.push(q);
+                    }
+                    Err(e) => {
+                        r.compile_mismatch += 1;
+                        r.detail = format!("round {round}: compilation failed: {e}");
+                    }
                 }
-            };
-            if shared_q != reference_q {
-                r.compile_mismatch += 1;
-                r.detail = format!("round {round}: a fresh compilation differs from the reference compilation");
+            }
+            if shared.len() != k {
+                break;
             }
             let barrier = Barrier::new(FRESH_THREADS);
             let arrived = AtomicUsize::new(0);
             let outcomes: Vec<String> = std::thread::scope(|scope| {
                 let workers: Vec<_> = adapters
                     .iter()
-                    .map(|adapter| {
-                        let (shared_q, args, barrier, arrived) = (&shared_q, &args, &barrier, &arrived);
+                    .enumerate()
+                    .map(|(i, adapter)| {
+                        let (q, args, barrier, arrived) = (&shared[i % k], &refs[i % k].1, &barrier, &arrived);
                         scope.spawn(move || {
                             barrier.wait();
                             // tighten the release: spin until everybody is past the barrier
@@ -504,29 +582,34 @@ impl C24 {
                                 std::hint::spin_loop();
                                 spins += 1;
                             }
-                            execute(adapter, shared_q, args)
+                            execute(adapter, q, args)
                         })
                     })
                     .collect();
                 workers.into_iter().map(|w| w.join().unwrap_or_else(|_| "panic: worker died".to_string())).collect()
             });
-            let bad = outcomes.iter().filter(|o| **o != reference).count();
-            if bad > 0 {
-                r.rows_mismatch_shared_query += bad;
-                let first = outcomes.iter().find(|o| **o != reference).unwrap();
+            let bad: Vec<usize> = (0..FRESH_THREADS).filter(|i| outcomes[*i] != refs[i % k].2).collect();
+            if let Some(&i) = bad.first() {
+                r.rows_mismatch_shared_query += bad.len();
+                let (want, got) = (&refs[i % k].2, &outcomes[i]);
+                let (wl, gl) = (want.lines().count(), got.lines().count());
+                let diff = want.lines().zip(got.lines()).find(|(a, b)| a != b);
                 r.detail = format!(
-                    "round {round}: {bad} of {FRESH_THREADS} threads executing the same fresh compiled query got rows different from the sequential reference; e.g. first differing line: want {:?} got {:?}",
-                    reference.lines().zip(first.lines()).find(|(a, b)| a != b).map(|x| x.0).unwrap_or("<length differs>"),
-                    reference.lines().zip(first.lines()).find(|(a, b)| a != b).map(|x| x.1).unwrap_or("<length differs>"),
+                    "round {round}: {} of {FRESH_THREADS} threads got rows different from the sequential reference (thread {i}, query #{}: {wl} reference rows, {gl} rows; first differing row: want {:?} got {:?})",
+                    bad.len(),
+                    i % k,
+                    diff.map(|x| x.0).or_else(|| want.lines().nth(gl)).unwrap_or("<none>"),
+                    diff.map(|x| x.1).or_else(|| got.lines().nth(wl)).unwrap_or("<none>"),
                 );
             }
-            let again = execute(&main_adapter, &shared_q, &args);
-            if again != reference {
-                r.rows_mismatch_own_query += 1;
-                if bad == 0 {
-                    r.detail = format!(
-                        "round {round}: after concurrent use, a sequential re-execution of the shared compiled query differs from the reference"
-                    );
+            for (i, q) in shared.iter().enumerate() {
+                if execute(&main_adapter, q, &refs[i].1) != refs[i].2 {
+                    r.rows_mismatch_own_query += 1;
+                    if bad.is_empty() {
+                        r.detail = format!(
+                            "round {round}: after concurrent use, a sequential re-execution of the shared compiled query #{i} differs from the reference"
+                        );
+                    }
                 }
             }
             if r.rows_mismatch_shared_query + r.rows_mismatch_own_query > 0 {
@@ -596,7 +679,7 @@ impl Prop for C24 {
         "C24"
     }
     fn rule(&self) -> &'static str {
-        "(sendsync <type>): rustc's own answer (method-resolution probe compiled against /repo's working tree) for a menu of concrete types — the six property types, Arc handles, the other public IR definitions, generic instantiations Operation<L,R> / DataContext<V> with thread-safe and thread-unsafe arguments (Rc, Cell, RefCell, raw pointer, Mutex/RwLock/OnceLock of cells), references, trait objects with and without Send/Sync bounds, every external leaf-table entry — against the Lean derivation sendSync over the regenerated TypeDefs table; non-trivial when the type is one of /repo's definitions or an instantiation of one. (hashfree <Name>): for every extracted definition, an independent Rust walk for HashMap/HashSet reachability against the Lean one. (immutable <Name>): for every extracted definition, an independent Rust walk for cells / locks / atomics reachable through field types against the Lean one. (run-fresh <file> <rounds>): first executions race — every round compiles a FRESH query from the shared schema, releases 8 threads (barrier + spin, own adapter each) that all start interpret_ir on that same brand-new Arc<IndexedQuery>, compares every thread's rows and a subsequent sequential re-execution of the shared compiled query with reference rows from an independently compiled copy executed on one thread; 40 rounds (quick) / 250 (thorough) for every query with @fold (outputs inside folds, nested folds, fold counts), 4 / 20 for the rest of the pool (recursion, optional, tags, coercions); stops at the first failing schedule. (run-shared <file>), (run-mix <seed> <n>), (compile-shared <dir> <file>): runtime cases — 16 threads released by a barrier share one Arc<NumbersAdapter> (which owns the Schema) and Arc<IndexedQuery>; each compiles the query concurrently and executes both the shared compiled query and its own; the compiled query must equal, and the rows must equal, the sequential ones (ORACLE). For runtime cases the model has nothing to compute: both sides answer the constant `ok`, the verdict comes from the oracle alone; thread interleavings are sampled, not enumerated. Queries: every file with schema_name numbers of trustfall_core/test_data/tests/valid_queries (executed) and frontend_errors (compiled only: the error must be the same)."
+        "(sendsync <type>): rustc's own answer (method-resolution probe compiled against /repo's working tree) for a menu of concrete types — the six property types, Arc handles, the other public IR definitions, generic instantiations Operation<L,R> / DataContext<V> with thread-safe and thread-unsafe arguments (Rc, Cell, RefCell, raw pointer, Mutex/RwLock/OnceLock of cells), references, trait objects with and without Send/Sync bounds, every external leaf-table entry — against the Lean derivation sendSync over the regenerated TypeDefs table; non-trivial when the type is one of /repo's definitions or an instantiation of one. (hashfree <Name>): for every extracted definition, an independent Rust walk for HashMap/HashSet reachability against the Lean one. (immutable <Name>): for every extracted definition, an independent Rust walk for cells / locks / atomics reachable through field types against the Lean one. (run-fresh <file> <rounds>): first executions race — every round compiles a FRESH query from the shared schema, releases 8 threads (barrier + spin, own adapter each) that all start interpret_ir on that same brand-new Arc<IndexedQuery>, compares every thread's rows and a subsequent sequential re-execution of the shared compiled query with reference rows from an independently compiled copy executed on one thread; 40 rounds (quick) / 250 (thorough) for every query with @fold (outputs inside folds, nested folds, fold counts), 4 / 20 for the rest of the pool (recursion, optional, tags, coercions); stops at the first failing schedule. The pool of run-fresh / run-shared / run-mix also holds 17 hand-written numbers queries (stems x_…) whose evaluation keeps per-row state in the engine: tag-supplied operands of regex / not_regex / has_substring / has_prefix / not_has_suffix / not_one_of / not_contains / > filters (the operand changes from row to row, so concurrent executions hold different operands at the same moment), filters inside folds with imported tags, fold counts with tags, recursion with coercion, tags from optional scopes; 40 rounds each (quick) / 400 (thorough). (run-pair <a> <b> <rounds>): the same racing first executions, but even threads run query a and odd threads query b, so two DIFFERENT queries (e.g. regex vs not_regex over different tags) execute at the same moment. (statics), (static-ok <NAME>): the list of `static` items / thread_local! blocks of trustfall_core/src outside cfg(test), re-extracted on every run, checked write-once by an independent Rust walk against the Lean one. (run-shared <file>), (run-mix <seed> <n>), (compile-shared <dir> <file>): runtime cases — 16 threads released by a barrier share one Arc<NumbersAdapter> (which owns the Schema) and Arc<IndexedQuery>; each compiles the query concurrently and executes both the shared compiled query and its own; the compiled query must equal, and the rows must equal, the sequential ones (ORACLE). For runtime cases the model has nothing to compute: both sides answer the constant `ok`, the verdict comes from the oracle alone; thread interleavings are sampled, not enumerated. Queries: every file with schema_name numbers of trustfall_core/test_data/tests/valid_queries (executed) and frontend_errors (compiled only: the error must be the same)."
     }
     fn generate(&self, tier: Tier, rng: &mut Rng) -> Vec<Case> {
         let mut out = vec![];
@@ -618,6 +701,20 @@ impl Prop for C24 {
         for name in self.defs.keys() {
             out.push(Case::new(Sexp::call("immutable", vec![Sexp::atom(name.clone())]), &["immutable", "nt:repo-definition"]));
         }
+        out.push(Case::new(Sexp::call("statics", vec![]), &["statics", "nt:repo-definition"]));
+        let mut seen = BTreeSet::new();
+        for st in &self.statics {
+            if seen.insert(st.name.clone()) {
+                out.push(Case::new(Sexp::call("static-ok", vec![Sexp::atom(st.name.clone())]), &["static-ok", "nt:repo-definition"]));
+            }
+        }
+        for (a, b) in PAIRS {
+            let rounds = if tier == Tier::Quick { 40 } else { 400 };
+            out.push(Case::new(
+                Sexp::call("run-pair", vec![Sexp::atom(*a), Sexp::atom(*b), Sexp::atom(rounds.to_string())]),
+                &["run-pair", "nt:concurrent-different-queries"],
+            ));
+        }
         let valid = stems("valid_queries");
         // first executions of a fresh compiled query, racing: more rounds for queries with folds
         // (outputs inside folds, nested folds, fold counts), fewer for the rest of the pool
@@ -625,7 +722,10 @@ impl Prop for C24 {
         for s in &valid {
             let Some(t) = load("valid_queries", s) else { continue };
             let folds = t.query.matches("@fold").count();
+            let extra = s.starts_with("x_");
             let rounds = match (tier, folds) {
+                (Tier::Quick, _) if extra => 40,
+                (_, _) if extra => 400,
                 (Tier::Quick, 0) => 4,
                 (Tier::Quick, _) => 40,
                 (_, 0) => 20,
@@ -646,6 +746,9 @@ impl Prop for C24 {
             }
             if t.query.contains("@tag") {
                 tags.push("fresh-tag");
+            }
+            if extra {
+                tags.push("nt:fresh-per-row-operand");
             }
             out.push(Case::new(Sexp::call("run-fresh", vec![Sexp::atom(s.clone()), Sexp::atom(rounds.to_string())]), &tags));
         }
@@ -688,9 +791,28 @@ impl Prop for C24 {
             ("immutable", [n]) => Some(bit(immutable_from(&self.defs, n.as_atom()?)).to_string()),
             ("run-fresh", [stem, rounds]) => {
                 let t = load("valid_queries", stem.as_atom()?)?;
-                self.run_fresh(&request.to_string(), &t, seed_n(rounds)?.min(5000));
+                self.run_fresh(&request.to_string(), &[t], seed_n(rounds)?.min(5000));
                 Some("ok".to_string())
             }
+            ("run-pair", [a, b, rounds]) => {
+                let ta = load("valid_queries", a.as_atom()?)?;
+                let tb = load("valid_queries", b.as_atom()?)?;
+                self.run_fresh(&request.to_string(), &[ta, tb], seed_n(rounds)?.min(5000));
+                Some("ok".to_string())
+            }
+            ("static-ok", [n]) => {
+                let l: Vec<&extract::StaticDef> = self.statics.iter().filter(|s| s.name == n.as_atom().unwrap_or("")).collect();
+                if l.is_empty() {
+                    Some("none".to_string())
+                } else {
+                    Some(bit(l.iter().all(|s| static_write_once(&self.defs, s))).to_string())
+                }
+            }
+            ("statics", []) => Some(format!(
+                "{} {}",
+                self.statics.len(),
+                bit(self.statics.iter().all(|s| static_write_once(&self.defs, s)))
+            )),
             ("run-shared", [stem, ..]) => {
                 let t = load("valid_queries", stem.as_atom()?)?;
                 self.run_shared(&request.to_string(), &t, true);
